@@ -41,7 +41,7 @@ class SchemaError(Exception):
 
 class Node:
     """one constructed type of the environment"""
-    __slots__ = ("name", "k", "cls", "classes", "fields", "elem", "lk", "fixed", "idx", "rank", "pdu", "dt")
+    __slots__ = ("name", "k", "cls", "classes", "fields", "elem", "lk", "fixed", "idx", "rank", "pdu", "dt", "apci")
 
     def __init__(self, name, k, cls):
         self.name, self.k, self.cls = name, k, cls
@@ -54,6 +54,7 @@ class Node:
         self.rank = None
         self.pdu = None       # registry short name for registered PDUs
         self.dt = None        # nameValue: Ref to DateTime
+        self.apci = False     # subclass of APCISequence (encode/decode take an APDU, trailing tags rejected)
 
 
 class Ref:
@@ -218,6 +219,7 @@ def walk():
                     if e.context is not None and not (isinstance(e.context, int) and e.context >= 0):
                         raise SchemaError("%s.%s: context %r" % (cls.__name__, e.name, e.context))
                     n.fields.append(Fld(e.name, ref_of(e.klass), e.context, bool(e.optional)))
+        n.apci = k == "seq" and issubclass(cls, apdu.APCISequence)
         del pending[key]
         sch.by_key[key] = n
         sch.by_cls[cls] = n
